@@ -56,7 +56,7 @@ Definition tk_apply_to_file : list stm :=
   [SIf [SExit] []; SEv (Rd "offset_cache"); SIf [SEv (Rd "offset_cache"); SIf [SEv (Rd "offset_cache"); SEv (Call "fd_seek")] []; SEv (Rd "offset_cache"); SExit] []; STry [SEv (Call "fd_tell"); SEv (Call "seeker_new"); SEv (Call "seeker_run"); SIf [SEv (Call "fd_seek")] [SEv (Call "fd_seek")]; SIf [SEv (Wr "offset_cache")] [SEv (Wr "offset_cache")]] [("NoTimestampsFoundInFile", [SEv (Call "fd_seek")]); ("NoValidLinesFoundInFile", [SEv (Call "fd_seek")]); ("TooManyLinesWithoutDate", [SEv (Call "fd_seek")]); ("MaxSearchableLineLengthReached", [SEv (Call "fd_seek")])] [SEv (Rd "offset_cache"); SEv (Rd "offset_cache")] []; SExit].
 
 Definition tk_extracted_datetime : list stm :=
-  [SIf [SEv (Call "decode_window")] []; SEv (Call "ts_match"); SIf [STry [SEv (Rd "strptime"); SExit] [("ValueError", [SExit])] [] []] []; SExit].
+  [SIf [SEv (Call "decode_window")] []; SEv (Call "ts_match"); SIf [STry [SEv (Rd "strptime"); SExit] [("ValueError", [SExit]); ("OverflowError", [SExit])] [] []] []; SExit].
 
 Definition tk_seeker_run : list stm :=
   [SEv (Call "tfld"); SEv (Rd "line_date"); SIf [SRaise "NoValidLinesFoundInFile"] []; SEv (Rd "line_date"); SIf [SEv (Rd "line_date"); SIf [SExit] []] []; STry [SEv (Call "bisect_left")] [("TooManyLinesWithoutDate", [SIf [SRaise "NoTimestampsFoundInFile"] []; SRaise "reraise"])] [] []; SIf [SRaise "NoValidLinesFoundInFile"] []; SExit].
